@@ -2,6 +2,8 @@ import PytezosModel.Proofs.C15
 import PytezosModel.Proofs.C15Keys
 import PytezosModel.Props.C03
 import PytezosModel.Michelson.BigMapKey
+import PytezosModel.Michelson.BigMapKeyHash
+import PytezosModel.Proofs.HashText
 /-! C15 — big map operations and lazy diffs agree with a layered dictionary model.
 
 `Impl.BigMap.*` mirrors `BigMapType.get / update`, `MapType.contains`, GET / MEM / UPDATE / GET_AND_UPDATE on a
@@ -480,5 +482,78 @@ theorem dropped_update_counterexample :
     runSh ⟨.items, false⟩ Nat.blt chain12 (⟨[], [], some 5⟩ : BM Nat Nat) [.update 2 (some 7), .get 2]
     = ([.unit, .val (some 200)], ⟨[], [], some 5⟩) ∧
     (Spec.BigMap.run chain12 [Op.update 2 (some 7), .get 2]).1 = [.unit, .val (some 7)] := by decide
+
+/-! ### the key hash as text: `forge_script_expr(key.pack(legacy=True))`
+
+`Impl.BigMap.keyHashChars cks H v` = Base58Check text, prefix `expr` (read from the source), of the hash of the legacy PACK
+of the key.  First for every 4-byte checksum and 32-byte hash function, then for the executable double SHA-256 /
+BLAKE2b-256 the driver runs (it prints this text for every update of every emitted diff, compared with pytezos' `key_hash`).
+The known answers are the `test_get_key_hash` vectors of tests/unit_tests/test_michelson/test_micheline.py. -/
+section KeyHash
+open HashText Impl.Encoding Order
+
+/-- the `expr` row of the regenerated `base58_encodings` table -/
+def exprRow : Row := ⟨[101, 120, 112, 114], 54, [13, 44, 64, 27], 32⟩
+
+/-- closed facts about that row (kernel evaluation over the regenerated C09 table), see `HashText.rowFacts` -/
+theorem expr_row_ok : rowFacts exprRow = true := by decide +kernel
+
+theorem chars_expr : Impl.BigMap.chars "expr" = [101, 120, 112, 114] := by decide
+
+/-- every key whose legacy PACK `b` the model can write has a 54-character `expr…` key hash, which `base58_decode` maps
+back to the hash of `b` — for every 4-byte checksum function and every 32-byte hash function -/
+theorem key_hash_text (cks : List Nat → List Nat) (hck : CksOk cks) (H : List Nat → List Nat) (hH : HashOk H)
+    (v : CVal) (b : List Nat) (hb : packLegacy v = some b) :
+    ∃ s, keyHashChars cks H v = some s ∧ s.length = 54 ∧ [101, 120, 112, 114] <+: s ∧
+      base58Decode cks s = .ok (H b) := by
+  obtain ⟨s, hs, hl, hp, hd⟩ := text_of_payload cks hck exprRow expr_row_ok (H b) (hH.len b) (hH.bytes b)
+  refine ⟨s, ?_, hl, hp, hd⟩
+  have hs' : base58Encode cks (H b) [101, 120, 112, 114] = .ok s := hs
+  simp [keyHashChars, scriptExpr, hb, (key_hash_format).1, chars_expr, hs', Except.toOption]
+
+/-- with the executable double SHA-256 and BLAKE2b-256 -/
+theorem key_hash_concrete (v : CVal) (b : List Nat) (hb : packLegacy v = some b) :
+    ∃ s, keyHashChars RealHash.cks RealHash.blake v = some s ∧ s.length = 54 ∧ [101, 120, 112, 114] <+: s ∧
+      base58Decode RealHash.cks s = .ok (RealHash.blake b) :=
+  key_hash_text RealHash.cks cks_ok RealHash.blake blake_ok v b hb
+
+/-- each update of the emitted entry carries the `expr…` text computed with the executable hashes from the legacy PACK
+of its own key (`typed_diff_key_hash` with the hash function the driver runs) -/
+theorem typed_diff_key_hash_concrete {τ : CTy} {V : Type} (c : Ctx) (b : BM (TVal τ) V)
+    (e : DiffEntry (TVal τ) V (Option (List Nat))) (b' : BM (TVal τ) V) (c' : Ctx)
+    (h : aggregateLazyDiff (fun k : TVal τ => keyHashChars RealHash.cks RealHash.blake k.1) c b = some (e, b', c')) :
+    ∀ u ∈ e.updates, u.2.1 = keyHashChars RealHash.cks RealHash.blake u.1.1 := diff_key_hash _ c b e b' c' h
+
+/-- the key-hash computation in three steps (legacy PACK, hash, Base58Check), so that a known answer can be evaluated by
+the kernel one step at a time -/
+theorem key_hash_steps (cks H : List Nat → List Nat) (v : CVal) (b d s : List Nat)
+    (hp : packLegacy v = some b) (hh : H b = d)
+    (he : (base58Encode cks d [101, 120, 112, 114]).toOption = some s) : keyHashChars cks H v = some s := by
+  simp [keyHashChars, scriptExpr, hp, hh, (key_hash_format).1, chars_expr, he]
+
+-- `Pair 1 1 1 1 : pair int int int int` (test_get_key_hash): the legacy PACK nests the pairs, 05 0707 0001 0707 0001 0707 0001 0001,
+-- and the key hash is expruN32WETsB2Dx1AynDmMufVr1As9qdnjRxKQ82rk2qZ4uxuKVMK
+set_option maxRecDepth 4000 in
+example : keyHashChars RealHash.cks RealHash.blake
+    (.pair (.num .int 1) (.pair (.num .int 1) (.pair (.num .int 1) (.num .int 1)))) =
+    some [101, 120, 112, 114, 117, 78, 51, 50, 87, 69, 84, 115, 66, 50, 68, 120, 49, 65, 121, 110, 68, 109, 77, 117, 102, 86, 114,
+      49, 65, 115, 57, 113, 100, 110, 106, 82, 120, 75, 81, 56, 50, 114, 107, 50, 113, 90, 52, 117, 120, 117, 75, 86, 77, 75] :=
+  key_hash_steps RealHash.cks RealHash.blake _ [5, 7, 7, 0, 1, 7, 7, 0, 1, 7, 7, 0, 1, 0, 1]
+    [111, 158, 41, 169, 196, 149, 22, 180, 169, 77, 73, 199, 100, 31, 210, 31, 94, 57, 34, 241, 78, 188, 115, 187, 137, 86, 126,
+    191, 103, 167, 44, 118]
+    _ (by decide +kernel) (by decide +kernel) (by decide +kernel)
+-- the address `tz1MsmYzmqxHs9trE1qQugZxxcLPqAXdQaX9` (optimized leaf 0000 18896f…8c, test_get_key_hash):
+-- expru2YV8AanTTUSV4K21P7X4DzbuWQFVk7NewDuP1A5uamffiiFA3
+set_option maxRecDepth 4000 in
+example : keyHashChars RealHash.cks RealHash.blake
+    (.address 0 [24, 137, 111, 207, 198, 105, 11, 174, 250, 154, 237, 198, 215, 89, 249, 191, 5, 114, 126, 140] []) =
+    some [101, 120, 112, 114, 117, 50, 89, 86, 56, 65, 97, 110, 84, 84, 85, 83, 86, 52, 75, 50, 49, 80, 55, 88, 52, 68, 122, 98, 117,
+      87, 81, 70, 86, 107, 55, 78, 101, 119, 68, 117, 80, 49, 65, 53, 117, 97, 109, 102, 102, 105, 105, 70, 65, 51] :=
+  key_hash_steps RealHash.cks RealHash.blake _ [5, 10, 0, 0, 0, 22, 0, 0, 24, 137, 111, 207, 198, 105, 11, 174, 250, 154, 237, 198, 215, 89, 249, 191, 5, 114, 126, 140]
+    [67, 91, 208, 213, 143, 94, 239, 63, 51, 236, 101, 133, 225, 61, 89, 133, 12, 217, 196, 85, 255, 147, 117, 80, 141, 224, 126,
+    19, 72, 147, 180, 24]
+    _ (by decide +kernel) (by decide +kernel) (by decide +kernel)
+
+end KeyHash
 
 end C15
